@@ -434,7 +434,11 @@ func TestC17(t *testing.T) {
 			}
 		}
 
-		for _, bits := range []int{1024, 2048, 3072, 4096} {
+		sizes := []int{1024, 2048, 3072, 4096}
+		if !r.Quick() {
+			sizes = append(sizes, 8192)
+		}
+		for _, bits := range sizes {
 			for ix := range rsaKeys(bits) {
 				i++
 				if !r.Mine(i) {
